@@ -96,6 +96,10 @@ func init() {
 				{Name: "getnext", Pkg: "internal/outputstream", PkgName: "outputstream", Files: []string{"outputstream/c08.go"},
 					SymFiles: []string{"outputstream/c08_sym.go"}, NatFiles: []string{"outputstream/c08_native.go"}, APIs: []string{"ldb"},
 					Entry: "verifHarness_C08_getnext", Params: p, Unwind: 8, Panics: true, Stubs: stubs},
+				// a longer environment program on a smaller store (add, add, delete while the reader is parked)
+				{Name: "getnext-env3", Pkg: "internal/outputstream", PkgName: "outputstream", Files: []string{"outputstream/c08.go"},
+					SymFiles: []string{"outputstream/c08_sym.go"}, NatFiles: []string{"outputstream/c08_native.go"}, APIs: []string{"ldb"},
+					Entry: "verifHarness_C08_getnext", Params: map[string]int{"initial": 1, "env": 3}, Unwind: 8, Panics: true, Stubs: stubs},
 				{Name: "get", Pkg: "internal/outputstream", PkgName: "outputstream", Files: []string{"outputstream/c08.go"},
 					SymFiles: []string{"outputstream/c08_sym.go"}, NatFiles: []string{"outputstream/c08_native.go"}, APIs: []string{"ldb"},
 					Entry: "verifHarness_C08_get", Params: p, Unwind: 8, Panics: true, Stubs: stubs},
